@@ -42,10 +42,14 @@ func panicToError(e interface{}) error {
 	frames := runtime.CallersFrames(pcs[:n])
 	var trace []string
 	origin := ""
+	pastPanic := false
 	for {
 		f, more := frames.Next()
+		if f.Function == "runtime.gopanic" {
+			pastPanic = true // frames before it belong to the deferred recover function
+		}
 		if f.Function != "" && !strings.HasPrefix(f.Function, "runtime.") {
-			if origin == "" {
+			if origin == "" && pastPanic {
 				origin = f.File
 			}
 			if len(trace) < 12 {
@@ -295,6 +299,12 @@ func (h *hookCtl) reset(parkRot bool) {
 func (h *hookCtl) handle(name string, args ...interface{}) {
 	if traceHooks && !strings.HasPrefix(name, "dc.") {
 		fmt.Fprintln(os.Stderr, append([]interface{}{"HOOK", name}, args...)...)
+		if name == "fs.rewrite.after" {
+			if p, ok := args[0].(string); ok && strings.HasSuffix(p, "collision.yaml") {
+				b, _ := os.ReadFile(p)
+				fmt.Fprintf(os.Stderr, "---- %s\n%s----\n", p, b)
+			}
+		}
 	}
 	h.mu.Lock()
 	h.counts[name]++
